@@ -598,12 +598,15 @@ pub fn plan(prop: &str, tier: &str) -> Option<Plan> {
                 bounds = json!({"E4": "family: growth path to N=64 + states directly after one shaping deviation (<=160 states, chk; N=33, <=24 states asan); every op of the C01-style alphabet (class keys) x every callback kind x every crash point; post-fault oracle, a tour of 12 calls, the growth path across the next resize, shrink/clone/drain; per-call continuations for N<=12"});
             } else {
                 for &hk in &HS4 {
-                    s.extend(mk(hk, 64, 300, 8, "chk", false, 1500.0));
-                    s.extend(mk(hk, 40, 120, 8, "asan", false, 1500.0));
+                    s.extend(mk(hk, 64, 240, 8, "chk", false, 900.0));
                 }
-                s.extend(mk(H_GOOD, 33, 60, 8, "chk", true, 1500.0));
-                s.extend(mk(H_GOOD, 130, 200, 8, "chk", false, 1500.0));
-                bounds = json!({"E4": "family: growth path to N=64/130 + post-deviation states (<=300 states chk, <=120 asan), 4 hashers; every op x every callback kind x every crash point; per-call continuations on <=60 states"});
+                for &hk in &[H_GOOD, H_LOW] {
+                    s.extend(mk(hk, 40, 64, 8, "asan", false, 900.0));
+                }
+                s.extend(mk(H_TAG, 16, 16, 4, "asan", false, 900.0));
+                s.extend(mk(H_GOOD, 33, 48, 8, "chk", true, 900.0));
+                s.extend(mk(H_GOOD, 130, 160, 8, "chk", false, 900.0));
+                bounds = json!({"E4": "family: growth path to N=64/130 + post-deviation states (<=240 states chk x 4 hashers, <=64 asan x 2 hashers); every op x every callback kind x every crash point; per-call continuations on <=48 states"});
             }
         }
         "C11" => {
